@@ -56,6 +56,21 @@ CLAIMED = {
         "(exercised by every spelling, not modelled); strftime/datetime.timezone are CPython's. The coercion is the code's "
         "(bool('OFF') is True for a QUOTED 'OFF'): recorded as an observation in the evidence, the property fixes no coercion function.",
    technique="Coq proof (invariants by induction over statement histories, pointwise restore argument for hints) + translator facts + vm_compute correspondence"),
+ "C15": dict(
+   text="Coq theorems over Model/Charset.v on top of the variable store, instantiated with the regenerated schema and character-set "
+        "/ collation tables: for every history of commands - handshake in any collation, SET NAMES / SET CHARACTER SET / assignments to "
+        "the two variables in every form, statements the server refuses, hinted statements, reads, text commands, COM_CHANGE_USER - the "
+        "server's client / results character sets equal what a conforming client (one that updates its belief only on OK) believes "
+        "(induction over the command list, with well-typedness of the store as auxiliary invariant); hence for ANY codecs that round-trip "
+        "representable strings, text arrives unchanged in both directions; a refused statement switches nothing; the text of command k "
+        "is decoded with the state before command k. Table facts (every collation belongs to a catalogue character set, defaults map "
+        "back, ids unique) by computation over the regenerated tables. Tie: codecs against an independently written MySQL->codec "
+        "table over each repertoire; histories on the real connection with a reference client, compared with the model.",
+   design="7/C15",
+   note="Trusted: Coq kernel, translator, harness; the codecs are CPython's (parameters of the theorem). MySQL's latin1 is cp1252 "
+        "while library and reference use ISO-8859-1: the 27 differing code points are not sampled (observation in the evidence). "
+        "utf16/utf32/ucs2 occur as column / results character sets only.",
+   technique="Coq proof (simulation between the connection and a reference client, by induction over command histories) + translator facts + vm_compute correspondence"),
  "C16": dict(
    text="Coq theorems: the regular expression built from a LIKE pattern (Model/Like.v, a regex AST with a denotational match "
         "relation) matches exactly the strings SQL LIKE matches, for every pattern and string, and a pattern without wildcards matches "
